@@ -34,6 +34,7 @@ type Ctx struct {
 var (
 	noInline       bool
 	dumpNormalised string
+	dumpShapes     bool
 )
 
 // LoadRepo loads ./src of the repository from source (never cached between runs),
